@@ -29,6 +29,9 @@ func init() {
 	}, runC09)
 
 	addVariants(
+		Variant{ID: "c09-r7-decoder-scribbles-on-its-input", Prop: "C09", File: "replication/binlog_event_rbr.go",
+			Old: "\t\td := make([]byte, l)\n\t\tcopy(d, data[pos:pos+l])\n", New: "\t\td := data[pos : pos+l]\n",
+			Expect: "C09-R7 read-only@"},
 		Variant{ID: "c09-r2-timestamp2-len", Prop: "C09", File: "replication/binlog_event_rbr.go",
 			Old: "\tcase TypeTimestamp2:\n\t\t// metadata has number of decimals. One byte encodes\n\t\t// two decimals.\n\t\treturn 4 + (int(metadata)+1)/2, nil", New: "\tcase TypeTimestamp2:\n\t\t// metadata has number of decimals. One byte encodes\n\t\t// two decimals.\n\t\treturn 4 + int(metadata)/2, nil",
 			Expect: "C09-R2 agree@cell[TypeTimestamp2"},
@@ -100,6 +103,8 @@ func runC09(a *A) {
 	c09R6(a)
 	// R7: splitting rows and decoding cells is a function of the event and the table map alone
 	statelessRule(a, "C09-R7", "Rows/cellLength/CellBytes", []*ssa.Function{cd.lenFn, cd.valFn, a.W.method(a.W.Repl, "binlogEvent", "Rows"), a.W.method(a.W.Repl, "binlogEvent", "TableMap")}, a.W.Repl)
+	// ... and of bytes that stay as they were: the decoders never write into the image they decode
+	readOnlyInput(a, "C09-R7", "cellLength/CellBytes", []*ssa.Function{cd.lenFn, cd.valFn}, a.W.Repl)
 }
 
 // R6: the rows-event header per event type (v1 23/24/25, v2 30/31/32) and post-header size: which images exist, whether the
